@@ -146,6 +146,8 @@ SmallShapes == {Std(st, ks, cs, bn) : st \in {"get", "getq", "post", "getx", "ju
 
 (* long bodies: the 1 MiB limit and the scanner's token limit (CODE-DERIVED, appendix D) *)
 BigLine == <<"%X", CR, LF>>
+RECURSIVE ManyLines(_)
+ManyLines(k) == IF k = 0 THEN <<>> ELSE BigLine \o ManyLines(k - 1)
 BigShapes == {
   [req |-> [start |-> StartTab.post.a, hdrs |-> <<ClLine("Content-Length", <<"60014">>)>>, blank |-> 1,
             body |-> <<"change-query", "(", "%X", ")">>], presents |-> FALSE,
@@ -155,7 +157,13 @@ BigShapes == {
    tags |-> [m |-> "POST", start |-> "post", key |-> "absent", cl |-> "ok", body |-> "big70k"]],
   [req |-> [start |-> StartTab.post.a, hdrs |-> <<ClLine("Content-Length", <<"1048577">>)>>, blank |-> 1,
             body |-> <<"change-query", "(", "%X", ")">>], presents |-> FALSE,
-   tags |-> [m |-> "POST", start |-> "post", key |-> "absent", cl |-> "huge", body |-> "big60k"]] }
+   tags |-> [m |-> "POST", start |-> "post", key |-> "absent", cl |-> "huge", body |-> "big60k"]],
+  [req |-> [start |-> StartTab.post.a, hdrs |-> <<ClLine("Content-Length", <<"1048576">>)>>, blank |-> 1,
+            body |-> <<"change-query", "(", "%X", ")">>], presents |-> FALSE,
+   tags |-> [m |-> "POST", start |-> "post", key |-> "absent", cl |-> "max-short", body |-> "big60k"]],
+  [req |-> [start |-> StartTab.post.a, hdrs |-> <<ClLine("Content-Length", <<"1020048">>)>>, blank |-> 1,
+            body |-> <<"change-query", "(">> \o ManyLines(17) \o <<")">>], presents |-> FALSE,
+   tags |-> [m |-> "POST", start |-> "post", key |-> "absent", cl |-> "ok", body |-> "big1m-lines"]] }
 
 ShapeSeq == SetToSeq(AllShapes)
 NShapes == Len(ShapeSeq)
